@@ -448,6 +448,105 @@ def r9_override_inclusion(m):
     return r
 
 
+MUTATORS = {"append", "extend", "insert", "remove", "pop", "sort", "reverse", "clear", "update", "setdefault", "popitem", "add", "discard"}
+
+
+def is_fresh(node):
+    """Does evaluating `node` give a new container (so that mutating it cannot be seen through the object it was derived from)?"""
+    if isinstance(node, (ast.List, ast.Dict, ast.Set, ast.ListComp, ast.DictComp, ast.SetComp, ast.Tuple, ast.Constant)):
+        return True
+    if isinstance(node, ast.Subscript) and isinstance(node.slice, ast.Slice):
+        return True
+    if isinstance(node, ast.BinOp) and isinstance(node.op, (ast.Add, ast.BitOr, ast.Mult)):
+        return True
+    if isinstance(node, ast.Call):
+        d = A.dotted(node.func) or ""
+        if d in ("list", "dict", "set", "tuple", "sorted", "copy.copy", "copy.deepcopy", "frozenset"):
+            return True
+        if isinstance(node.func, ast.Attribute) and node.func.attr in ("copy", "keys", "values", "items", "split", "format", "join"):
+            return True
+        return False
+    if isinstance(node, ast.IfExp):
+        return is_fresh(node.body) and is_fresh(node.orelse)
+    return False
+
+
+def r10_no_alias_mutation(m):
+    r = RuleResult("C17.R10", "a class body that derives a table from another class's table copies it before changing it (no mutation through "
+                              "an alias: the 2003 classes' tables are not altered by importing the 2008 ones)")
+    r.floor = 15
+    for (path, q), cd in sorted(m.classdefs.items()):
+        if "/tests/" in path or "/two/" not in path:
+            continue
+        alias = {}     # class-body name -> text of the foreign attribute it aliases
+        for s_ in cd.body:
+            if isinstance(s_, ast.Assign) and len(s_.targets) == 1 and isinstance(s_.targets[0], ast.Name):
+                name, val = s_.targets[0].id, s_.value
+                foreign = [x for x in ast.walk(val) if isinstance(x, ast.Attribute) and isinstance(x.value, ast.Name) and x.value.id not in ("re", "pattern", "pattern_tools")
+                           and x.value.id[:1].isupper()]
+                if foreign:
+                    r.instances += 1
+                    if is_fresh(val):
+                        alias.pop(name, None)
+                        r.ob(True, "%s.%s = %s (fresh)" % (q, name, A.text(val)[:40]) if r.instances % 5 == 0 else None)
+                    elif isinstance(val, ast.Attribute):
+                        alias[name] = A.text(val)
+                        r.ob(True)
+                    else:
+                        r.ob(True)
+                else:
+                    alias.pop(name, None)
+            muts = []
+            for x in ast.walk(s_):
+                if isinstance(x, ast.Call) and isinstance(x.func, ast.Attribute) and x.func.attr in MUTATORS and isinstance(x.func.value, ast.Name) \
+                        and x.func.value.id in alias:
+                    muts.append((x.func.value.id, x))
+                if isinstance(x, ast.AugAssign) and isinstance(x.target, ast.Name) and x.target.id in alias:
+                    muts.append((x.target.id, x))
+                if isinstance(x, (ast.Assign, ast.Delete)):
+                    for t in (x.targets if isinstance(x, (ast.Assign, ast.Delete)) else []):
+                        if isinstance(t, ast.Subscript) and isinstance(t.value, ast.Name) and t.value.id in alias:
+                            muts.append((t.value.id, x))
+            for name, x in muts:
+                r.instances += 1
+                r.ob(False)
+                r.fail("%s|alias-mutation|%s" % (q, name), "class %s: `%s` changes `%s` in place, but that name is the very object `%s` (not a copy): "
+                       "the other class's table changes as a side effect of importing this module, e.g. a 2008-only keyword becomes "
+                       "acceptable to the 2003 parser" % (q, A.text(x)[:50], name, alias[name]), "%s:%s" % (m.rel(path), x.lineno))
+    return r
+
+
+def r11_intrinsic_inclusion(m):
+    r = RuleResult("C17.R11", "every intrinsic function name the 2003 parser recognises is recognised by the 2008 parser with the same arity bounds")
+    r.floor = 1
+    k3, k8 = m.std_class("f2003", "Intrinsic_Name"), m.std_class("f2008", "Intrinsic_Name")
+    if k3 is None or k8 is None:
+        r.error("Intrinsic_Name missing in one of the standards")
+        return r
+
+    def attr(k, name):
+        for kk in m.classes[k]["mro"]:
+            ent = m.classes[kk]["own"].get(name)
+            if ent is not None:
+                return ent
+        return {}
+    r.instances += 1
+    n3, n8 = set(attr(k3, "function_names").get("value") or []), set(attr(k8, "function_names").get("value") or [])
+    g3, g8 = attr(k3, "generic_function_names").get("entries"), attr(k8, "generic_function_names").get("entries")
+    if not n3 or g3 is None or g8 is None:
+        r.error("Intrinsic_Name tables are not plain tables")
+        return r
+    lost = sorted(n3 - n8)
+    r.ob(not lost, "2003 names %d, 2008 names %d" % (len(n3), len(n8)))
+    if lost:
+        r.fail("Intrinsic_Name|lost-in-2008", "intrinsic names %s of the 2003 parser are not recognised by the 2008 parser" % lost[:6], m.class_loc(k8))
+    changed = sorted(a for a in g3 if a in g8 and g3[a] != g8[a])
+    r.ob(not changed)
+    if changed:
+        r.fail("Intrinsic_Name|arity-changed", "arity bounds of %s differ between the 2003 and the 2008 tables" % changed[:6], m.class_loc(k8))
+    return r
+
+
 def run(m, tier):
     ctx = cb.get_ctx(m)
     from rules import C09
@@ -461,12 +560,12 @@ def run(m, tier):
     for f in r8.findings:
         f.rule = "C17.R8"
     results = [r1_inclusion(m), r2_engine_identity(m, ctx), r3_overrides_reachable(m, ctx), r4_2008_only_unreachable(m),
-               r5_2008_reachable(m), r6_globals(m, ctx), r7, r8, r9_override_inclusion(m)]
+               r5_2008_reachable(m), r6_globals(m, ctx), r7, r8, r9_override_inclusion(m), r10_no_alias_mutation(m), r11_intrinsic_inclusion(m)]
     expl = ("Decides grammar inclusion at the level at which the 2008 grammar is assembled: every rule and alternative of the linked "
             "2003 registry is still reachable, in the same relative order, in the linked 2008 registry (550 rules); identity tests of "
             "the generic engine also name the 2008 overrides; 2003 code that builds an overridden class by Python name is covered by a "
             "hook/own-match/self-registration or an explained exception; no 2008 class or 2008-only keyword is reachable from the 2003 "
             "grammar; each 2008-only construct of the property is reachable from Program in the 2008 grammar; reachable matchers resolve "
-            "all their names; the standards share no mutable class-level state and the factory always relinks. Does NOT decide text "
+            "all their names; the standards share no mutable class-level state (matchers do not write it, class bodies copy a table before extending it) and the factory always relinks. Does NOT decide text "
             "equality of the two parsers' output.")
     return results, expl
